@@ -113,6 +113,25 @@ def main():
     genfail = 0
     for n in [int(x) for x in a.ns.split(",")]:
         traces = []
+        if n <= 2:
+            # one and two players (singleton ids 1 / 1, 2 are CONSECUTIVE there; seed C15-e): every small integer / dyadic game
+            for j in range(max(8, a.exact // 2)):
+                tid += 1
+                sing = [rng.randint(-4, 6) / rng.choice([1, 1, 4]) for _ in range(n)]
+                if n == 1:
+                    v = [0.0, sing[0]]
+                else:
+                    v = [0.0, sing[0], sing[1], sing[0] + sing[1] + rng.choice([0, 0, 1, 3, 0.5])]
+                if j % 4 == 3 and n == 2:
+                    m = np.array([[float(rng.randint(0, 3)), float(rng.randint(0, 5))], [float(rng.randint(0, 3)), 0.0]])
+                    traces.append(one_trace(tid, n, GraphCooperativeGame(m), "exact", "int_graph"))
+                else:
+                    traces.append(one_trace(tid, n, table_of(n, [float(x) for x in v]), "exact", "exact"))
+            path = f"{a.out}_norm_n{n}.json"
+            D.dump(path, {"traces": traces})
+            files.append({"n": n, "path": path, "traces": len(traces), "events": len(traces),
+                          "sample": {k: traces[-1][k] for k in ("family", "rep", "v", "out", "cond_e")}})
+            continue
         for j in range(a.exact):
             tid += 1
             kind = j % 7
